@@ -332,3 +332,6 @@ type Interior struct {
 	Again []Inner
 	End   int32
 }
+
+// Twin has a namesake in package props with more fields (class names carry no package path).
+type Twin struct{ A int32 }
